@@ -52,7 +52,67 @@ def init_line(cfg):
                      str(cfg["stop"]), _lst(cfg["keyCols"]), str(cfg["keyBits"]), str(int(cfg["keyFloat"])), str(cfg["sexW"]),
                      _lists(cfg["births"]), str(int(cfg["akPerPhase"])), _lst(cfg["order"]), _lst(cfg["birthPrio"]),
                      str(cfg["mortPhase"]), str(cfg["mortPrio"]), str(cfg["disPhase"]), str(cfg["disPrio"]),
-                     _lists(cfg["mortP"]), _lists(cfg["initW"]), _lst([int(sp["selfOk"]) for sp in cfg["states"]]), _lists(trans)])
+                     _lists(cfg["mortP"]), _lists(cfg["initW"]), _lst([int(sp["selfOk"]) for sp in cfg["states"]]), _lists(trans)]
+                    + ext_tokens(cfg))
+
+
+def has_ext(cfg):
+    ob = cfg.get("obs") or {}
+    return bool(cfg.get("age") or cfg.get("pipe") or ob.get("strats") or ob.get("observations") or ob.get("defaults"))
+
+
+def _strs(l):
+    return "-" if not l else ",".join(str(x) for x in l)
+
+
+def ext_tokens(cfg):
+    """the opt-in parts of the configuration as `name=value` tokens (see lean/Driver/Whole.lean)"""
+    t = []
+    if cfg.get("age"):
+        t.append(f"age={cfg['age']['bits']}")
+    pipe = cfg.get("pipe")
+    if pipe:
+        mods = list(pipe.get("mods") or [])
+        t += [f"pipe={int(pipe['mode'])},{pipe['den']}", "pkeys=" + _lst(pipe["keys"]), "pedges=" + _lst(pipe.get("edges") or []),
+              "prows=" + _lists(pipe["rows"]),
+              "mods=" + _lists([[m["kind"], m["den"], m["w"][0], m["w"][1]] for m in mods])]
+    ob = cfg.get("obs") or {}
+    if ob.get("defaults"):
+        t.append("odef=" + _strs(ob["defaults"]))
+    for sp in ob.get("strats", []):
+        t.append(f"strat={sp['name']},{sp['kind']}/{_strs(sp['cats'])}/{_strs(sp['excl'])}/{_lst(sp.get('edges') or [])}")
+    for o in ob.get("observations", []):
+        t.append(f"obs={o['name']},{o['when']},{o['filter']},{o['agg']},{o['mod']}/{_strs(o['add'])}/{_strs(o['exc'])}")
+    return t
+
+
+def show_pvals(pv):
+    if not pv:
+        return "-"
+    if pv and pv[0] == "error":
+        return "error:" + str(pv[1])
+    return ",".join(f"{r[0]}:{r[4]}/{r[5]}" for r in pv)
+
+
+def show_results(cfg, res):
+    ob = cfg.get("obs") or {}
+    if res is None or not ob.get("observations") or 3 not in cfg["order"]:
+        return "-"
+    if "_error" in res:
+        return "error:" + res["_error"]
+    out = []
+    for o in ob["observations"]:
+        r = res.get(o["name"])
+        if not isinstance(r, list):
+            out.append(f"{o['name']}[{r}]")
+            continue
+        cells = []
+        for row in r:
+            num, den = row[-2], row[-1]
+            v = str(num) if den == 1 else f"{num}/{den}"
+            cells.append("|".join(row[:-2]) + "=" + v)
+        out.append(f"{o['name']}[{','.join(cells)}]")
+    return "+".join(out)
 
 
 def show_table(tab):
@@ -80,6 +140,110 @@ def variant(**kw):
     c = copy.deepcopy(BASE)
     c.update(kw)
     return c
+
+
+STATE_NAMES = ["s0", "s1", "s2", "s3"]
+SEX_NAMES = ["m", "f"]
+
+
+def full_table(keys, n_states, edges, value):
+    """the complete data of a lookup table: one row per key combination and bin; value(cells, bin) -> numerator"""
+    import itertools
+    doms = [range(2) if k == 0 else range(n_states) for k in keys]
+    bins = range(len(edges) - 1) if edges else [None]
+    rows = []
+    for cells in itertools.product(*doms):
+        for b in bins:
+            rows.append(list(cells) + ([b] if b is not None else []) + [value(cells, b)])
+    return rows
+
+
+def sex_strat(name="sex", cats=("m", "f"), excl=()):
+    return {"name": name, "kind": 0, "cats": list(cats), "excl": list(excl), "edges": []}
+
+
+def state_strat(n, name="state", excl=(), cats=None):
+    return {"name": name, "kind": 1, "cats": list(cats) if cats is not None else STATE_NAMES[:n], "excl": list(excl), "edges": []}
+
+
+def combo_strat(n, name="combo", excl=()):
+    return {"name": name, "kind": 2, "cats": [a + "_" + b for a in SEX_NAMES for b in STATE_NAMES[:n]], "excl": list(excl), "edges": []}
+
+
+def alive_strat(name="alive", excl=()):
+    return {"name": name, "kind": 3, "cats": ["yes", "no"], "excl": list(excl), "edges": []}
+
+
+def age_strat(edges, name="agebin", excl=()):
+    return {"name": name, "kind": 4, "cats": [f"a{i}" for i in range(len(edges) - 1)], "excl": list(excl), "edges": list(edges)}
+
+
+def observation(name, when=3, flt=1, agg=0, add=(), exc=(), mod=1):
+    return {"name": name, "when": when, "filter": flt, "agg": agg, "add": list(add), "exc": list(exc), "mod": mod}
+
+
+MODS3 = [{"kind": 0, "den": 4, "w": [2, 3]}, {"kind": 1, "den": 16, "w": [1, 0]}, {"kind": 2, "den": 16, "w": [4, 12]}]
+PMODS3 = [{"kind": 0, "den": 4, "w": [2, 3]}, {"kind": 0, "den": 16, "w": [1, 0]}, {"kind": 0, "den": 16, "w": [4, 16]}]
+
+
+def ext_boundary():
+    """hand-written cases for the opt-in parts: value pipeline + lookup table, observer / stratified results"""
+    b = []
+    tab2 = full_table([0, 1], 3, None, lambda c, _: (c[0] * 5 + c[1] * 3 + 2) % 17)
+    tab3 = full_table([0, 1], 3, [0, 3, 6, 8], lambda c, bn: (c[0] * 5 + c[1] * 3 + bn * 2) % 17)
+    # the same mortality table as `mortP`, read through a categorical lookup table and an unmodified pipeline
+    b.append(variant(pipe={"mode": 0, "src": 0, "den": 16, "keys": [0, 1], "edges": None, "mods": MODS3,
+                           "rows": full_table([0, 1], 3, None, lambda c, _: BASE["mortP"][c[0]][c[1]])}))
+    # three non-commuting modifiers in registration order; the order of the components decides
+    b.append(variant(order=[4, 0, 1, 5, 2, 6], pipe={"mode": 0, "src": 1, "den": 16, "keys": [0, 1], "edges": None, "rows": tab2, "mods": MODS3}))
+    b.append(variant(order=[6, 5, 4, 0, 1, 2], pipe={"mode": 0, "src": 0, "den": 16, "keys": [0, 1], "edges": None, "rows": tab2, "mods": MODS3}))
+    b.append(variant(order=[0, 1, 2, 5, 4], pipe={"mode": 0, "src": 0, "den": 16, "keys": [1, 0], "edges": None,
+                                                  "rows": full_table([1, 0], 3, None, lambda c, _: (c[0] * 3 + c[1] * 5 + 2) % 17), "mods": MODS3}))
+    # interpolated table: parameter column age, bins inside / below / above the data (extrapolation)
+    b.append(variant(age={"bits": 3}, order=[0, 1, 2, 4], pipe={"mode": 0, "src": 0, "den": 16, "keys": [0, 1], "edges": [0, 3, 6, 8], "rows": tab3, "mods": MODS3}))
+    b.append(variant(age={"bits": 4}, pop=9, mapSize=131, pipe={"mode": 0, "src": 1, "den": 8, "keys": [0], "edges": [3, 5, 11],
+                                                                 "rows": full_table([0], 3, [3, 5, 11], lambda c, bn: [1, 8, 0, 5][c[0] * 2 + bn]), "mods": MODS3}))
+    b.append(variant(age={"bits": 3}, pipe={"mode": 0, "src": 0, "den": 4, "keys": [], "edges": [0, 2, 4, 8],
+                                            "rows": full_table([], 3, [0, 2, 4, 8], lambda c, bn: [0, 4, 2][bn]), "mods": MODS3}))
+    # union: list combiner + union_post_processor
+    b.append(variant(order=[5, 0, 1, 2, 4], pipe={"mode": 1, "src": 0, "den": 16, "keys": [0, 1], "edges": None, "rows": tab2, "mods": PMODS3}))
+    b.append(variant(order=[0, 1, 2], pipe={"mode": 1, "src": 0, "den": 16, "keys": [1], "edges": None,
+                                            "rows": full_table([1], 3, None, lambda c, _: [0, 16, 8][c[0]]), "mods": PMODS3}))   # one value: returned as is
+    # a key combination without data: KeyError (interpolated) / ValueError (categorical) when somebody has it
+    b.append(variant(pipe={"mode": 0, "src": 0, "den": 16, "keys": [0, 1], "edges": None, "rows": [r for r in tab2 if r[:2] != [1, 1]], "mods": MODS3}))
+    b.append(variant(age={"bits": 3}, pipe={"mode": 0, "src": 0, "den": 16, "keys": [0, 1], "edges": [0, 3, 6, 8],
+                                            "rows": [r for r in tab3 if r[:2] != [1, 0]], "mods": MODS3}))
+    # refused at setup: a bin missing for one key group
+    b.append(variant(age={"bits": 3}, pipe={"mode": 0, "src": 0, "den": 16, "keys": [0, 1], "edges": [0, 3, 6, 8],
+                                            "rows": [r for r in tab3 if r[:3] != [0, 1, 1]], "mods": MODS3}))
+    # observer: count by sex and state after the mortality listener (collect_metrics), everyone at time_step__prepare
+    b.append(variant(order=[0, 3, 1, 2], obs={"defaults": [], "strats": [sex_strat(), state_strat(3)],
+                                              "observations": [observation("alive_count", 3, 1, 0, ["sex", "state"]), observation("everyone", 0, 0, 0)]}))
+    # the results manager's listener (priority 5, registered first) against the mortality listener in the same channel
+    for mp in (2, 5, 8):
+        b.append(variant(order=[3, 0, 1, 2], mortPhase=1, mortPrio=mp, mortP=[[8, 8, 8], [8, 8, 8]],
+                         obs={"defaults": ["alive"], "strats": [alive_strat(), sex_strat("zsex", ("f", "m"))],
+                              "observations": [observation("t", 1, 1, 0, ["zsex"]), observation("u", 1, 4, 1)]}))
+    # births in the observed channel are not in the event index; excluded category; to_observe every 2nd step; sums
+    b.append(variant(order=[0, 1, 2, 3], birthPrio=[0, 0, 0, 0], age={"bits": 3},
+                     obs={"defaults": ["state"], "strats": [state_strat(3, excl=["s2"]), age_strat([0, 4, 8]), combo_strat(3)],
+                          "observations": [observation("a", 1, 0, 2, ["agebin"]), observation("b", 2, 2, 1, ["combo"], ["state"], 2),
+                                           observation("c", 3, 3, 0, [], [], 1)]}))
+    # a mapper output outside the categories: ValueError as soon as somebody is in the missing state / age outside the bins
+    b.append(variant(order=[0, 1, 2, 3], obs={"defaults": [], "strats": [state_strat(3, cats=["s0", "s1"])], "observations": [observation("x", 3, 0, 0, ["state"])]}))
+    b.append(variant(order=[0, 1, 2, 3], age={"bits": 3}, obs={"defaults": [], "strats": [age_strat([0, 2, 5])], "observations": [observation("x", 0, 0, 0, ["agebin"])]}))
+    # refused at setup: duplicate stratification name; observation stratified by an unregistered stratification
+    b.append(variant(order=[0, 1, 2, 3], obs={"defaults": [], "strats": [sex_strat(), sex_strat()], "observations": []}))
+    b.append(variant(order=[0, 1, 2, 3], obs={"defaults": [], "strats": [sex_strat()], "observations": [observation("x", 3, 0, 0, ["nope"])]}))
+    # configured but the observer component is not part of the simulation
+    b.append(variant(order=[0, 1, 2], obs={"defaults": [], "strats": [sex_strat()], "observations": [observation("x", 3, 0, 0, ["sex"])]}))
+    # everything together
+    b.append(variant(order=[5, 0, 3, 1, 4, 2, 6], age={"bits": 3}, pop=8, mapSize=127,
+                     pipe={"mode": 0, "src": 0, "den": 16, "keys": [1, 0], "edges": [1, 4, 7],
+                           "rows": full_table([1, 0], 3, [1, 4, 7], lambda c, bn: (c[0] * 7 + c[1] * 4 + bn * 5) % 17), "mods": MODS3},
+                     obs={"defaults": ["sex"], "strats": [sex_strat(), state_strat(3), alive_strat()],
+                          "observations": [observation("n", 3, 1, 0, ["state"]), observation("gone", 2, 4, 2, ["alive"], ["sex"])]}))
+    return b
 
 
 class Whole(Prop):
@@ -135,6 +299,7 @@ class Whole(Prop):
                          initW=[[16, 0], [8, 8]], mortP=[[0, 0], [0, 0]]))              # no valid transition for one sex
         b.append(variant(addSeed=7, seed=12))
         b.append(variant(addSeed="x9", seed=0, mapSize=1009))
+        b += ext_boundary()
         return b
 
     def generate(self, rng: random.Random, i: int, tier: str):
@@ -194,7 +359,97 @@ class Whole(Prop):
                 cfg["mapSize"] = rng.choice([1009, 1511, 2003] if thorough else [503, 1009, 2003])
             else:
                 cfg["mapSize"] = rng.choice(cands)
+        self._gen_ext(rng, cfg, thorough)
         return cfg
+
+    def _gen_ext(self, rng, cfg, thorough):
+        """the opt-in parts (about 60 % of the cases use at least one): age column, lookup table + value pipeline,
+        observer. All random choices come AFTER the base configuration's, so the base stream is unchanged."""
+        r = rng.random()
+        if r < 0.4:
+            return
+        ns = len(cfg["states"])
+        use_age = rng.random() < 0.5
+        use_pipe = rng.random() < 0.6
+        use_obs = rng.random() < 0.65
+        if not (use_pipe or use_obs):
+            use_obs = True
+        if use_age:
+            cfg["age"] = {"bits": rng.choice([2, 3, 3, 4])}
+        order = list(cfg["order"])
+        if use_pipe:
+            union = rng.random() < 0.35
+            den = rng.choice([16, 16, 16, 8, 4, 64])
+            edges = None
+            if use_age and rng.random() < 0.6:
+                top = 2 ** cfg["age"]["bits"]
+                k = rng.choice([1, 2, 2, 3])
+                cuts = sorted(rng.sample(range(0, top + 2), k + 1))
+                if rng.random() < 0.5:
+                    cuts[0], cuts[-1] = 0, max(top, cuts[-2] + 1)             # the bins cover every age
+                edges = cuts
+            keys = rng.choice([[0, 1], [0, 1], [1, 0], [0], [1]] + ([[]] if edges else []))
+            vals = [0, den, den // 2, den // 4] + [rng.randint(0, den) for _ in range(3)]
+            rows = full_table(keys, ns, edges, lambda c, bn: rng.choice(vals) if union else rng.choice(vals + [den + den // 2]))
+            rng.shuffle(rows)
+            if rng.random() < 0.08 and len(rows) > 1:
+                rows.pop(rng.randrange(len(rows)))                           # a hole: refused at setup or when somebody needs it
+            mods = []
+            for _ in range(3):
+                md = rng.choice([1, 2, 4, 4, 8, 16])
+                kind = rng.choice([0, 0, 1, 2])
+                hi = md if union else (2 * md if kind == 0 else md)
+                mods.append({"kind": kind, "den": md, "w": [rng.randint(0, hi), rng.randint(0, hi)]})
+            cfg["pipe"] = {"mode": int(union), "src": rng.choice([0, 1]), "den": den, "keys": keys, "edges": edges, "rows": rows, "mods": mods}
+            for c in (4, 5, 6):
+                if rng.random() < 0.6:
+                    order.insert(rng.randrange(len(order) + 1), c)
+        if use_obs:
+            pool = [0, 1, 2, 3] + ([4] if use_age else [])
+            kinds = rng.sample(pool, rng.choice([1, 2, 2, 3]) if len(pool) >= 3 else 1)
+            strats = []
+            for k in kinds:
+                if k == 0:
+                    sp = sex_strat(rng.choice(["sex", "zsex"]), rng.choice([("m", "f"), ("f", "m")]))
+                elif k == 1:
+                    cats = STATE_NAMES[:ns]
+                    rng.shuffle(cats)
+                    if rng.random() < 0.08 and len(cats) > 1:
+                        cats = cats[:-1]                                     # somebody may map outside the categories
+                    sp = state_strat(ns, rng.choice(["state", "astate"]), cats=cats)
+                elif k == 2:
+                    sp = combo_strat(ns)
+                elif k == 3:
+                    sp = alive_strat(rng.choice(["alive", "tracked_now"]))
+                else:
+                    top = 2 ** cfg["age"]["bits"]
+                    nb = rng.choice([1, 2, 3])
+                    inner = sorted(rng.sample(range(1, top), min(nb - 1, top - 1)))
+                    edges = [0] + inner + [top if rng.random() < 0.85 else top - 1]   # top - 1: the oldest fall outside
+                    edges = sorted(set(edges))
+                    if len(edges) < 2:
+                        edges = [0, top]
+                    sp = age_strat(edges)
+                if len(sp["cats"]) > 1 and rng.random() < 0.3:
+                    sp["excl"] = [rng.choice(sp["cats"])]
+                strats.append(sp)
+            names = [sp["name"] for sp in strats]
+            defaults = [rng.choice(names)] if rng.random() < 0.25 else []
+            observations = []
+            for j in range(rng.choice([1, 2, 2, 3] if thorough else [1, 2, 2])):
+                add = [n for n in names if rng.random() < 0.5]
+                exc = [rng.choice(defaults)] if defaults and rng.random() < 0.3 else []
+                observations.append(observation(f"o{j}", rng.randrange(4), rng.choice([0, 1, 1, 2, 3, 4]),
+                                                rng.choice([0, 0, 0, 1, 2] if use_age else [0, 0, 1]), add, exc, rng.choice([1, 1, 1, 2])))
+            r2 = rng.random()
+            if r2 < 0.03:
+                strats.append(dict(strats[0]))                              # duplicate stratification name: refused at setup
+            elif r2 < 0.06:
+                observations[0]["add"] = observations[0]["add"] + ["nope"]   # unregistered stratification: refused at post_setup
+            cfg["obs"] = {"defaults": defaults, "strats": strats, "observations": observations}
+            if rng.random() < 0.95:
+                order.insert(rng.randrange(len(order) + 1), 3)
+        cfg["order"] = order
 
     @staticmethod
     def _split(rng, total, n):
@@ -229,6 +484,8 @@ class Whole(Prop):
         obs["run_clock"] = obs2["clocks"][-1] if obs2["clocks"] else None
         obs["run_error"] = obs2["error"]
         obs["run_positions"] = obs2["positions"]
+        obs["run_results"] = obs2["results"][-1] if obs2.get("results") else None
+        obs["run_pvals"] = obs2["pvals"][-1] if obs2.get("pvals") else None
         # another scenario: different births, mortality, machine parameters -> the initial CRN attributes must not move
         import copy
         other = copy.deepcopy(cfg)
@@ -259,17 +516,28 @@ class Whole(Prop):
         if replies[0] == "bad-config":
             return ["model refuses the configuration, implementation ran"]
         clocks = obs["clocks"]
+        ext = has_ext(cfg)
+
+        def diff(got, tab, clock, pos, res, pv):
+            """model reply vs implementation: `ok <clock> <rows> [<positions>] [<pipeline values> <results>]`"""
+            g = got.split(" ")
+            want = ["ok", str(clock), show_table(tab)]
+            have = g[:3]
+            if pos is not None:
+                want.append(show_pos(pos))
+                have = g[:4]
+            if ext:
+                want += [show_pvals(pv), show_results(cfg, res)]
+                have = have + g[4:6]
+            if len(g) != (6 if ext else 4) and g[0] == "ok":
+                return " ".join(g), " ".join(want)
+            return (" ".join(have), " ".join(want)) if have != want else None
         for i, (name, tab, pos) in enumerate(stages):
             if tab is None:
                 break
-            want = f"ok {clocks[i]} {show_table(tab)}"
-            got = replies[i]
-            if pos is not None:
-                want += " " + show_pos(pos)
-            else:
-                got = " ".join(got.split(" ")[:3])
-            if got != want:
-                out.append(f"stage {name}: model `{got[:400]}` != implementation `{want[:400]}`")
+            d = diff(replies[i], tab, clocks[i], pos, (obs.get("results") or [None] * (i + 1))[i], (obs.get("pvals") or [None] * (i + 1))[i])
+            if d:
+                out.append(f"stage {name}: model `{d[0][:600]}` != implementation `{d[1][:600]}`")
                 break
         if err and not out:
             i = 0 if err["at"] == "init" else (err["at"] + 1 if isinstance(err["at"], int) else None)
@@ -283,11 +551,9 @@ class Whole(Prop):
             if last != f"err {obs['run_error']['class']}":
                 out.append(f"run(): implementation raised {obs['run_error']['class']}, model `{last[:200]}`")
         elif obs["run_final"] is not None:
-            want = f"ok {obs['run_clock']} {show_table(obs['run_final'])}"
-            if obs.get("run_positions") is not None:
-                want += " " + show_pos(obs["run_positions"])
-            if last != want:
-                out.append(f"run(): model `{last[:400]}` != implementation `{want[:400]}`")
+            d = diff(last, obs["run_final"], obs["run_clock"], obs.get("run_positions"), obs.get("run_results"), obs.get("run_pvals"))
+            if d:
+                out.append(f"run(): model `{d[0][:600]}` != implementation `{d[1][:600]}`")
         return out
 
     # ------------------------------------------------------------------ oracle (independent of the model)
@@ -399,7 +665,140 @@ class Whole(Prop):
         # another scenario (births, mortality, order): same initial population
         if obs["other_init"] != obs["init"]:
             fail("initial-population-depends-on-scenario", f"{show_table(obs['init'])[:300]} vs {show_table(obs['other_init'])[:300]}")
+        self._oracle_ext(cfg, obs, tabs, clocks, fail)
+        if err is None and obs["run_error"] is None and obs["steps"] and has_ext(cfg):
+            if obs.get("run_results") != (obs.get("results") or [None])[-1]:
+                fail("run-differs-from-steps", f"results after run(): {show_results(cfg, obs.get('run_results'))[:300]}; step by step: "
+                                               f"{show_results(cfg, (obs.get('results') or [None])[-1])[:300]}")
         return f
+
+    # the opt-in parts, from the configuration and the observed tables alone (no Lean model involved)
+    @staticmethod
+    def expected_probability(cfg, sex, st, age):
+        """post(modifiers in registration order(source(the table row of the simulant's own sex / state / age bin)))
+        as an exact fraction; None when the table has no such row (the call is refused)"""
+        from fractions import Fraction
+        pipe = cfg["pipe"]
+        edges = pipe.get("edges")
+        cells = [sex if k == 0 else st for k in pipe["keys"]]
+        bn = None
+        if edges:
+            bn = 0
+            for i in range(len(edges) - 1):
+                if age >= edges[i]:
+                    bn = i                                     # below the first edge: first bin; at or above the last: last bin
+        hit = [r for r in pipe["rows"] if r[:len(cells)] == cells and (bn is None or r[len(cells)] == bn)]
+        if len(hit) != 1:
+            return None
+        v = Fraction(hit[0][-1], pipe["den"])
+        mods = [pipe["mods"][c - 4] for c in cfg["order"] if 4 <= c <= 6]
+        ws = [Fraction(m["w"][sex], m["den"]) for m in mods]
+        if pipe["mode"] == 1:
+            vals = [v] + ws
+            if len(vals) == 1:
+                return v
+            prod = Fraction(1)
+            for x in vals:
+                prod *= 1 - x
+            return 1 - prod
+        for m, w in zip(mods, ws):
+            v = v * w if m["kind"] == 0 else (v + w if m["kind"] == 1 else w)
+        return v
+
+    def _oracle_ext(self, cfg, obs, tabs, clocks, fail):
+        from fractions import Fraction
+        # ---- the value the mortality filter used: each simulant's own row, modifiers in registration order
+        if cfg.get("pipe") and 1 in cfg["order"]:
+            for k, pv in enumerate(obs.get("pvals") or []):
+                if not pv or k == 0 or k >= len(tabs):
+                    continue
+                if pv[0] == "error":
+                    fail("pipeline-log", f"stage {k}: {pv}")
+                    continue
+                if pv == (obs["pvals"][k - 1] if k else None):
+                    continue                                   # nobody was asked during this step
+                before = {r[0]: r for r in tabs[k - 1]}
+                after = {r[0]: r for r in tabs[k]}
+                for lab, sex, st, age, num, den in pv:
+                    want = self.expected_probability(cfg, sex, st, age)
+                    got = Fraction(num, den)
+                    if want is not None and got != want:
+                        fail("pipeline-value", f"stage {k}: simulant {lab} (sex {sex}, state {st}, age {age}) was filtered with probability {got}, "
+                                               f"its own table row through the modifiers in registration order gives {want}")
+                        break
+                    if lab in before and before[lab][1] == 0:
+                        fail("pipeline-asked-untracked", f"stage {k}: untracked simulant {lab} was handed to the pipeline")
+                    r1 = after.get(lab)
+                    if r1 is not None and got >= 1 and r1[1] == 1:
+                        fail("filter-vs-probability", f"stage {k}: simulant {lab} had probability {got} and is still tracked")
+                    if r1 is not None and got <= 0 and r1[1] == 0:
+                        fail("filter-vs-probability", f"stage {k}: simulant {lab} had probability {got} and was untracked")
+        # ---- stratified results
+        ob = cfg.get("obs") or {}
+        results = obs.get("results") or []
+        if not ob.get("observations") or 3 not in cfg["order"] or not results:
+            return
+        by_name = {sp["name"]: sp for sp in ob["strats"]}
+        from .. import wholekit as wk
+        for o in ob["observations"]:
+            names = wk.obs_strat_names(cfg, o)
+            if any(n not in by_name for n in names):
+                continue
+            prev = None
+            for k, res in enumerate(results[: len(tabs)]):
+                if res is None:
+                    break
+                if "_error" in res:
+                    fail("results-unreadable", f"stage {k}: {res['_error']}")
+                    break
+                cur = res.get(o["name"])
+                if not isinstance(cur, list):
+                    fail("results-shape", f"stage {k}: observation {o['name']}: {cur}")
+                    break
+                if any(row[-1] != 1 for row in cur):
+                    fail("results-not-integer", f"stage {k}: observation {o['name']}: {cur}")
+                    break
+                tab = {tuple(row[:-2]): row[-2] for row in cur}
+                if prev is None:
+                    if any(tab.values()):
+                        fail("results-not-zero-at-start", f"observation {o['name']}: {cur}")
+                    prev = tab
+                    continue
+                inc = {key: tab[key] - prev[key] for key in tab}
+                total = sum(inc.values())
+                due = ((clocks[k] - cfg["start"]) // cfg["step"]) % o["mod"] == 0       # event.time of step k is the clock after it
+                if not due and any(inc.values()):
+                    fail("results-observed-when-not-due", f"stage {k}: observation {o['name']} (every {o['mod']} steps) grew by {inc}")
+                sched = cfg["births"][k - 1] if k - 1 < len(cfg["births"]) else [0, 0, 0, 0]
+                n_index = len(tabs[k - 1]) + sum(sched[: o["when"]])                    # the event index: rows before the event
+                index_rows = tabs[k][:n_index]
+                excluded = any(by_name[n]["excl"] for n in names)
+                if o["agg"] == 0:
+                    if any(v < 0 for v in inc.values()):
+                        fail("results-decreased", f"stage {k}: observation {o['name']}: {inc}")
+                    if total > n_index:
+                        fail("results-count-exceeds-event", f"stage {k}: observation {o['name']} counted {total}, the event had {n_index} simulants")
+                    if due and o["filter"] == 0 and not excluded and total != n_index:
+                        fail("results-count-not-everyone", f"stage {k}: observation {o['name']} (no filter, no exclusions) counted {total}, "
+                                                           f"the event had {n_index} simulants")
+                    if due and o["filter"] == 0 and names and all(by_name[n]["kind"] == 0 for n in names):
+                        # strata by sex only: sex never changes, so the increment of a stratum is known from the table
+                        for key, v in inc.items():
+                            want = sum(1 for r in index_rows if SEX_NAMES[r[4]] == key[0])
+                            if v != want:
+                                fail("results-stratum-wrong", f"stage {k}: observation {o['name']} stratum {key} grew by {v}, the event had {want} such simulants")
+                    if due and o["filter"] == 1 and not excluded:
+                        was = {r[0]: r[1] for r in tabs[k - 1]}
+                        upper = sum(1 for r in index_rows if was.get(r[0], 1) == 1)
+                        lower = sum(1 for r in index_rows if r[1] == 1)
+                        if not lower <= total <= upper:
+                            fail("results-tracked-bounds", f"stage {k}: observation {o['name']} (tracked == True) counted {total}; of the event's "
+                                                           f"simulants {upper} were tracked before the step and {lower} after it")
+                if o["agg"] == 1 and due and o["filter"] == 0 and not excluded:
+                    want = sum(r[3] for r in index_rows)
+                    if total != want:
+                        fail("results-sum-wrong", f"stage {k}: observation {o['name']} summed entrance to {total}, the event's simulants give {want}")
+                prev = tab
 
     # ------------------------------------------------------------------ reporting
     def nontrivial(self, cfg, obs):
@@ -435,10 +834,56 @@ class Whole(Prop):
             for ph in range(4):
                 if any(k < len(cfg["births"]) and cfg["births"][k][ph] for k in range(len(obs["steps"]))):
                     t.append(f"births@{ph}")
+        t += self._tags_ext(cfg, obs)
         if obs.get("collisions"):
             t.append("hash-collision:resolved")
         elif cfg["keyCols"] and obs.get("collisions") == 0:
             t.append("hash-collision:none")
+        return t
+
+    def _tags_ext(self, cfg, obs):
+        t = []
+        if not has_ext(cfg):
+            return ["ext:none"]
+        if cfg.get("age"):
+            t.append(f"ext:age:{cfg['age']['bits']}bits")
+        pipe = cfg.get("pipe")
+        if pipe:
+            t.append("pipe:" + ("union" if pipe["mode"] == 1 else "replace"))
+            t.append("pipe:keys:" + ("+".join(["sex", "state"][k] for k in pipe["keys"]) or "none"))
+            t.append("pipe:table:" + ("interpolated" if pipe.get("edges") else "categorical"))
+            t.append("pipe:source:" + ("table-object" if pipe["src"] == 0 and pipe["mode"] == 0 else "method"))
+            mods = [pipe["mods"][c - 4] for c in cfg["order"] if 4 <= c <= 6]
+            t.append(f"pipe:modifiers:{len(mods)}")
+            for m in mods:
+                t.append("pipe:modifier:" + (["mul", "add", "set"][m["kind"]] if pipe["mode"] == 0 else "contribution"))
+            pvs = [pv for pv in (obs.get("pvals") or []) if pv and pv[0] != "error"]
+            if pvs:
+                t.append("pipe:called")
+                if any(r[4] * 1 >= r[5] for pv in pvs for r in pv):
+                    t.append("pipe:value>=1")
+                if any(r[4] == 0 for pv in pvs for r in pv):
+                    t.append("pipe:value=0")
+                if pipe.get("edges") and any(not pipe["edges"][0] <= r[3] < pipe["edges"][-1] for pv in pvs for r in pv):
+                    t.append("pipe:extrapolated")
+        ob = cfg.get("obs")
+        if ob:
+            t.append("obs:observer-" + ("present" if 3 in cfg["order"] else "absent"))
+            t.append(f"obs:stratifications:{len(ob['strats'])}")
+            for sp in ob["strats"]:
+                t.append("obs:strat:" + ["sex", "state", "mapper-combo", "mapper-tracked", "age-bin"][sp["kind"]])
+                if sp["excl"]:
+                    t.append("obs:excluded-category")
+            if ob["defaults"]:
+                t.append("obs:default-stratification")
+            for o in ob["observations"]:
+                t += [f"obs:when@{o['when']}", f"obs:filter:{o['filter']}", "obs:agg:" + ["count", "sum-entrance", "sum-age"][o["agg"]],
+                      f"obs:every:{o['mod']}", f"obs:strata:{len(set(o['add']) | set(ob['defaults']))}"]
+                if o["when"] == cfg["mortPhase"]:
+                    t.append("obs:same-channel-as-mortality:" + ("manager-first" if cfg["mortPrio"] >= 5 else "mortality-first"))
+            res = [r for r in (obs.get("results") or []) if r]
+            if res and any(isinstance(v, list) and any(row[-2] for row in v) for v in res[-1].values()):
+                t.append("obs:results-nonzero")
         return t
 
     def shrink(self, cfg):
@@ -477,6 +922,25 @@ class Whole(Prop):
             yield v(start=0, stop=cfg["stop"] - cfg["start"])
         if cfg["keyCols"]:
             yield v(keyCols=[])
+        ob = cfg.get("obs")
+        if ob:
+            yield v(obs=None, order=[c for c in cfg["order"] if c != 3])
+            for j in range(len(ob["observations"])):
+                if len(ob["observations"]) > 1:
+                    yield v(obs=dict(ob, observations=ob["observations"][:j] + ob["observations"][j + 1:]))
+            for o_i, o in enumerate(ob["observations"]):
+                if o["add"]:
+                    o2 = dict(o, add=o["add"][:-1])
+                    yield v(obs=dict(ob, observations=ob["observations"][:o_i] + [o2] + ob["observations"][o_i + 1:]))
+        pipe = cfg.get("pipe")
+        if pipe:
+            yield v(pipe=None, order=[c for c in cfg["order"] if c not in (4, 5, 6)])
+            for c in (6, 5, 4):
+                if c in cfg["order"]:
+                    yield v(order=[x for x in cfg["order"] if x != c])
+        if cfg.get("age") and not (pipe and pipe.get("edges")) and not (ob and any(sp["kind"] == 4 for sp in ob["strats"])) \
+                and not (ob and any(o["agg"] == 2 for o in ob["observations"])):
+            yield v(age=None)
 
     def sample_view(self, cfg, obs):
         return {"case": cfg, "observed": {"init": show_table(obs.get("init"))[:400], "last": show_table((obs.get("steps") or [None])[-1])[:600],
